@@ -527,7 +527,7 @@ End Layout.
 
 (* ------------------------------------------------------------------ unified-buffer functions *)
 Definition uni_canonical (f : uni_fn) : Prop :=
-  u_padguard f = (fun pw0 ph0 align => (pw0 =? 0) || (ph0 =? 0) || (pw0 >? INT_MAX - (align - 1))) /\
+  u_padguard f = (fun pw0 ph0 align => (pw0 =? 0) || (ph0 =? 0) || (pw0 >? INT_MAX - align)) /\
   u_stride0 f = PAD_c /\ u_stride0_ok f = PAD_c_ok /\ u_stride1 f = PAD_c /\ u_stride1_ok f = PAD_c_ok /\
   u_toolarge f = (fun s0 ph0 s1 ph1 => (u64 (s0 * ph0) >? INT_MAX) || (u64 (s1 * ph1) >? INT_MAX)) /\
   u_off1 f = Z.mul /\ u_off1_ok f = (fun x y => in_int (x * y)) /\
@@ -537,16 +537,15 @@ Lemma unified_fns_canonical : Forall uni_canonical unified_fns.
 Proof. repeat constructor. Qed.
 
 Definition unified_result (w a h s : Z) : ures :=
-  if plane_fits 0 w a h s && (spec_pw 0 w s + (a - 1) <=? INT_MAX) then
-    if spec_pw 0 w s + a >? INT_MAX then UUB   (* pw0 + align == INT_MAX + 1: the intermediate of PAD overflows *)
-    else if s =? TJSAMP_GRAY then ULayout [Some 0; None; None] [spec_stride 0 w a s; 0; 0]
+  if plane_fits 0 w a h s && (spec_pw 0 w s + a <=? INT_MAX) then
+    if s =? TJSAMP_GRAY then ULayout [Some 0; None; None] [spec_stride 0 w a s; 0; 0]
     else if (plane_bytes 0 w a h s >? INT_MAX) || (plane_bytes 1 w a h s >? INT_MAX) then UErr
     else ULayout [Some (spec_off 0 w a h s); Some (spec_off 1 w a h s); Some (spec_off 2 w a h s)]
                  [spec_stride 0 w a s; spec_stride 1 w a s; spec_stride 2 w a s]
   else UErr.
 
 Lemma pad_guard_implies_stride_fits w k s : valid_samp s -> valid_dim w -> 0 <= k <= 30 ->
-  spec_pw 0 w s + (2 ^ k - 1) <= INT_MAX -> spec_stride 0 w (2 ^ k) s <= INT_MAX.
+  spec_pw 0 w s + 2 ^ k <= INT_MAX -> spec_stride 0 w (2 ^ k) s <= INT_MAX.
 Proof.
   intros Hs Hw Hk H. unfold spec_stride. pose proof (pad_up_bounds (spec_pw 0 w s) (2 ^ k) (pow2_pos k ltac:(lia))). lia.
 Qed.
@@ -576,17 +575,15 @@ Proof.
   2:{ cbn. reflexivity. }
   destruct (spec_ph 0 h s <=? INT_MAX) eqn:E2; cbn [andb].
   2:{ rewrite Z.eqb_refl, orb_true_r. cbn. reflexivity. }
-  destruct (spec_pw 0 w s + (2 ^ k - 1) <=? INT_MAX) eqn:E3.
-  2:{ assert (Y : (spec_pw 0 w s =? 0) || (spec_ph 0 h s =? 0) || (spec_pw 0 w s >? INT_MAX - (2 ^ k - 1)) = true) by lia.
+  destruct (spec_pw 0 w s + 2 ^ k <=? INT_MAX) eqn:E3.
+  2:{ assert (Y : (spec_pw 0 w s =? 0) || (spec_ph 0 h s =? 0) || (spec_pw 0 w s >? INT_MAX - 2 ^ k) = true) by lia.
       rewrite Y. rewrite andb_false_r. reflexivity. }
-  assert (Y : (spec_pw 0 w s =? 0) || (spec_ph 0 h s =? 0) || (spec_pw 0 w s >? INT_MAX - (2 ^ k - 1)) = false) by lia.
+  assert (Y : (spec_pw 0 w s =? 0) || (spec_ph 0 h s =? 0) || (spec_pw 0 w s >? INT_MAX - 2 ^ k) = false) by lia.
   rewrite Y. clear Y.
   pose proof (pad_guard_implies_stride_fits w k s Hs Hw Hk ltac:(lia)) as F0.
   assert (Y : spec_stride 0 w (2 ^ k) s <=? INT_MAX = true) by lia. rewrite Y. clear Y. cbn [andb].
   rewrite PAD_c_ok_iff by (unfold INT_MAX in *; lia).
-  destruct (spec_pw 0 w s + 2 ^ k >? INT_MAX) eqn:E4.
-  { assert (Y : spec_pw 0 w s + 2 ^ k <=? INT_MAX = false) by lia. rewrite Y. reflexivity. }
-  assert (Y : spec_pw 0 w s + 2 ^ k <=? INT_MAX = true) by lia. rewrite Y. clear Y. cbn [negb].
+  rewrite E3. cbn [negb].
   rewrite PAD_c_spec by lia. fold (spec_stride 0 w (2 ^ k) s).
   destruct (s =? TJSAMP_GRAY) eqn:Eg; [reflexivity|].
   assert (N1 : 1 <? ncomp s = true) by (unfold ncomp; rewrite Eg; reflexivity). rewrite N1. cbn [andb].
